@@ -40,7 +40,7 @@ def isiterable(x):
 def _b(message):
     """convert string to correct format for buffer object"""
     import codecs
-    return codecs.latin_1_encode(message)[0]
+    return codecs.utf_8_encode(message)[0] # the encoding of python source
 
 
 if __name__=='__main__':
